@@ -1,6 +1,6 @@
 (** C11 — Pool worker count is exact and bounded. (what is established so far) *)
 From OCV Require Import Cases.Pool.
-From OCV Require Import Sched.PoolWf Sched.PoolRun Sched.PoolProofs Sched.PoolInv Sched.PoolTerm Sched.PoolExample.
+From OCV Require Import Sched.PoolWf Sched.PoolRun Sched.PoolProofs Sched.PoolInv Sched.PoolTerm Sched.PoolIdleRun Sched.PoolExample Sched.PoolExampleC.
 Open Scope Z_scope.
 
 Definition c11_witness : pcase :=
@@ -15,14 +15,15 @@ Theorem C11_refuted_stolen_worker_wedges_pool :
             /\ exists e, last (model_obs c) OUnitP = OPass PDiverged e.
 Proof. exists c11_witness. vm_compute. repeat split; auto. eexists; reflexivity. Qed.
 
-(** * One pool, all well-formed histories ([wf_pool1t], see Props/C01). Partial: premise
-    [stops_prompt] (at every StopTimeout of the run the oracle's prompt-stop clause holds; the missing
-    piece is the liveness argument "all done, dur > 0, nobody parked => the stop's first pass drains
-    everything"). Termination of every call is proved ([nodiv_model1]). *)
-Theorem C11_single_pool_partial : forall clock cfg ops, wf_pool1t clock cfg ops = true ->
-  stops_prompt (snd (fst cfg)) (pw0 clock [cfg]) (potr0 clock 1) ops = true ->
+(** * One pool, all well-formed histories. [wf_pool1c] = [wf_pool1t] (see Props/C01) and, checked
+    along the model run, every stop with a positive timeout is issued while the clock is below
+    u64::MAX (at u64::MAX the deadline saturates to "now" and no stop can act). The oracle accepts the
+    model's own run: the counter is within [0, max], equals the parked workers after a quiet pass, is 0
+    after a successful stop, and a stop with nothing left to do, nobody asleep and time to act in does
+    not wait out its timeout. *)
+Theorem C11_single_pool : forall clock cfg ops, wf_pool1c clock cfg ops = true ->
   po_c11 (fst (self_flags clock [cfg] ops)) = true.
-Proof. exact c11_model1_stops. Qed.
+Proof. exact c11_model1c. Qed.
 
 (** the counter equals the number of live workers and stays within [0, max], after every prefix *)
 Theorem C11_count_exact : forall clock cfg ops n, wf_pool1t clock cfg ops = true ->
@@ -30,10 +31,9 @@ Theorem C11_count_exact : forall clock cfg ops n, wf_pool1t clock cfg ops = true
   p_running (get_pool x 0) = live_workers x /\ 0 <= p_running (get_pool x 0) <= snd (fst cfg).
 Proof. exact count_exact1. Qed.
 
-Example C11_nonvacuous : wf_pool1t 0 ex_cfg ex_ops = true
-  /\ stops_prompt 2 (pw0 0 [ex_cfg]) (potr0 0 1) ex_ops = true.
-Proof. split; [vm_compute; reflexivity | exact (proj2 ex_extra)]. Qed.
+Example C11_nonvacuous : wf_pool1c 0 ex_cfg ex_ops = true.
+Proof. exact ex_wfc. Qed.
 
 Print Assumptions C11_refuted_stolen_worker_wedges_pool.
-Print Assumptions C11_single_pool_partial.
+Print Assumptions C11_single_pool.
 Print Assumptions C11_count_exact.
